@@ -17,6 +17,8 @@ pub(crate) struct Html5Serializer<'a, N: Normalizer> {
     cdata_section_names: &'a [NameId],
     fullname_serializer: FullnameSerializer<'a>,
     normalizer: N,
+    // per open element: how many name-stack frames its start tag pushed
+    frames: Vec<usize>,
 }
 
 fn html_matches_suppress(
@@ -57,7 +59,13 @@ impl<'a, N: Normalizer> Html5Serializer<'a, N> {
         cdata_section_names: &'a [NameId],
         normalizer: N,
     ) -> Self {
-        let extra_declarations = xot.namespaces_in_scope(node).collect();
+        // an inherited default namespace other than the top element's own is not written
+        // (see the Prefix arm of render_output), so it is not a binding of the output either
+        let top_namespace = xot.element(node).map(|e| xot.namespace_for_name(e.name()));
+        let extra_declarations = xot
+            .namespaces_in_scope(node)
+            .filter(|(p, ns)| *p != xot.empty_prefix() || Some(*ns) == top_namespace)
+            .collect();
         let fullname_serializer = FullnameSerializer::new(xot, extra_declarations);
         Self {
             xot,
@@ -65,6 +73,7 @@ impl<'a, N: Normalizer> Html5Serializer<'a, N> {
             cdata_section_names,
             fullname_serializer,
             normalizer,
+            frames: Vec::new(),
         }
     }
 
@@ -131,16 +140,28 @@ impl<'a, N: Normalizer> Html5Serializer<'a, N> {
         use Output::*;
         let r = match output {
             StartTagOpen(element) => {
-                self.fullname_serializer
-                    .push(self.xot.namespace_declarations(node));
                 let namespace_id = self.xot.namespace_for_name(element.name_id);
+                // a default-namespace declaration for another namespace than the element's own is
+                // not written (see the Prefix arm), so it is not a binding of the output either
+                let declarations: Vec<_> = self
+                    .xot
+                    .namespace_declarations(node)
+                    .into_iter()
+                    .filter(|(p, ns)| *p != self.xot.empty_prefix() || *ns == namespace_id)
+                    .collect();
+                let mut frames = if declarations.is_empty() { 0 } else { 1 };
+                self.fullname_serializer.push(declarations);
                 if self
                     .html5_elements
                     .must_be_serialized_unprefixed(namespace_id)
                     && !self.fullname_serializer.has_empty_prefix(namespace_id)
                 {
-                    // add the empty prefix for the namespace
-                    self.fullname_serializer.add_empty_prefix(namespace_id);
+                    // the injected default namespace gets a frame of its own: it replaces any
+                    // other binding of the empty prefix and ends with this element
+                    self.fullname_serializer
+                        .push(vec![(self.xot.empty_prefix(), namespace_id)]);
+                    frames += 1;
+                    self.frames.push(frames);
                     // we also need to serialize the additional xmlns
                     let local_name = self.xot.local_name_str(element.name_id);
                     let namespace_uri = serialize_attribute_html(
@@ -152,6 +173,7 @@ impl<'a, N: Normalizer> Html5Serializer<'a, N> {
                         text: format!("<{} xmlns=\"{}\"", local_name, namespace_uri),
                     });
                 }
+                self.frames.push(frames);
                 OutputToken {
                     space: false,
                     text: format!(
@@ -185,8 +207,9 @@ impl<'a, N: Normalizer> Html5Serializer<'a, N> {
                         ),
                     }
                 };
-                self.fullname_serializer
-                    .pop(self.xot.has_namespace_declarations(node));
+                for _ in 0..self.frames.pop().unwrap_or(0) {
+                    self.fullname_serializer.pop(true);
+                }
                 r
             }
             Prefix(prefix_id, namespace_id) => {
